@@ -560,7 +560,7 @@ func (ex *Explorer) runOne(it workItem, run func()) {
 		ex.inconclusive("unrecovered target panic: " + end.msg)
 	case "deadlock":
 		st.PathsDead++
-		ex.inconclusive("deadlock: " + end.msg)
+		ex.inconclusive("deadlock: " + end.msg + " [" + ex.describePath() + "]")
 	case "budget":
 		ex.inconclusive("step budget exceeded: " + end.msg)
 	case "unsupported":
